@@ -1088,6 +1088,22 @@ func ruleStepper(r *Run) {
 	gl := p.Func(enginePkg, "generateLiteralMatrix")
 	og := r.Ob("FE-ORD", "logqlengine.generateLiteralMatrix", "a literal range query has a point at every start + k*step <= end")
 	if gl == nil {
+		// inlined into its caller: the function of the literal evaluation that compares times in a loop
+		if ev := p.Method(enginePkg, "Engine", "evalLiteral"); ev != nil {
+			for _, g := range funcGroup(ev) {
+				for _, c := range callsIn(g) {
+					if call, ok := c.(*ssa.Call); ok && gl == nil {
+						for _, m := range []string{"Equal", "Before", "After"} {
+							if callIs(call, "time", "(Time)."+m) {
+								gl = g
+							}
+						}
+					}
+				}
+			}
+		}
+	}
+	if gl == nil {
 		og.Fail("-", "function not found")
 		return
 	}
